@@ -27,7 +27,7 @@ v('c03r1-gapstart', 'C03', 'C03-R1', 'src/algo/algo.go', "scoreGapStart     = -3
 v('c03r1-scheme-bonus', 'C03', 'C03-R1', 'src/algo/algo.go', "\tcase \"history\":\n\t\tbonusBoundaryWhite = bonusBoundary\n", "\tcase \"history\":\n\t\tbonusBoundaryWhite = bonusBoundary - 2\n")
 b('bigger-slab', ['C02', 'C03', 'C05'], 'src/constants.go', "slab16Size int = 100 * 1024", "slab16Size int = 4 << 20")  # safe since fix 7e8ad36 bounds the pattern length itself
 v('c03r2-weaker-pattern-guard', 'C03', 'C03-R2', 'src/algo/algo.go', "|| M > maxPatternLengthV2 {", "|| M > 2*maxPatternLengthV2 {")
-v('c03r2-no-fallback', 'C03', 'C03-R2', 'src/algo/algo.go', "\tif slab != nil && N*M > cap(slab.I16) || M > maxPatternLengthV2 {\n\t\treturn FuzzyMatchV1(caseSensitive, normalize, forward, input, pattern, withPos, slab)\n\t}\n", "")
+v('c03r2-no-fallback', 'C03', 'C03-R2', 'src/algo/algo.go', "\t// (N*M can overflow on 32-bit platforms)\n\tif slab != nil && N > cap(slab.I16)/M || M > maxPatternLengthV2 {\n\t\treturn FuzzyMatchV1(caseSensitive, normalize, forward, input, pattern, withPos, slab)\n\t}\n", "")
 v('c03r2-odd-slab', 'C03', 'C03-R2', 'src/core.go', "slab := util.MakeSlab(slab16Size, slab32Size)", "slab := util.MakeSlab(slab16Size*64, slab32Size)")
 # ---- C04
 v('c04r1-five-criteria', 'C04', 'C04-R1', 'src/options.go', "\tif len(criteria) > 4 {", "\tif len(criteria) > 5 {")
